@@ -4,6 +4,8 @@ import (
 	"flag"
 	"fmt"
 	"math/rand"
+	"strings"
+	"sync"
 	"time"
 
 	"github.com/evolbioinfo/gotree/support"
@@ -362,6 +364,35 @@ func caseC08(r *rand.Rand, cw *CalcWriter, label string, maxT int) {
 		evs[i] = &CEvent{Kind: kind, Prop: "C08", Case: label, Trees: []*PTree{pref, pcs[i]},
 			Args: map[string]interface{}{"tips": tips, "identical": false, "rel": "multi", "swap": false, "history": "", "of": k, "cpus": cpus, "idx": i}}
 	}
+	// with two workers, each one waits (at most 30 ms) between building the structures of its tree and using them until
+	// the other worker is at the same point with another tree: what must be private to a worker is then in use by both
+	if cpus == 2 {
+		var mu sync.Mutex
+		inflight := 0
+		tree.VerifGate = func(site string, worker, item int) {
+			switch {
+			case strings.HasSuffix(site, ".mid1"):
+				mu.Lock()
+				inflight++
+				mu.Unlock()
+			case strings.HasSuffix(site, ".mid2"):
+				for i := 0; i < 30; i++ {
+					mu.Lock()
+					n := inflight
+					mu.Unlock()
+					if n >= 2 {
+						break
+					}
+					time.Sleep(time.Millisecond)
+				}
+			case strings.HasSuffix(site, ".send"):
+				mu.Lock()
+				inflight--
+				mu.Unlock()
+			}
+		}
+		defer func() { tree.VerifGate = nil }()
+	}
 	evs[0].guard(calcTimeout, func() error {
 		nrec := make([]int, k)
 		if weighted {
@@ -601,13 +632,13 @@ type calcCase struct {
 		Nm string   `json:"nm"`
 		St []string `json:"st"`
 	} `json:"tips,omitempty"`
-	Extra map[string]interface{} `json:"extra,omitempty"`
-	Cap     int     `json:"cap,omitempty"`
-	LoadNum int     `json:"loadnum,omitempty"`
-	LoadDen int     `json:"loadden,omitempty"`
-	NKeys   int     `json:"nkeys,omitempty"`
-	Ops     []idxOp `json:"ops,omitempty"`
-	K     *int                   `json:"k,omitempty"`
+	Extra   map[string]interface{} `json:"extra,omitempty"`
+	Cap     int                    `json:"cap,omitempty"`
+	LoadNum int                    `json:"loadnum,omitempty"`
+	LoadDen int                    `json:"loadden,omitempty"`
+	NKeys   int                    `json:"nkeys,omitempty"`
+	Ops     []idxOp                `json:"ops,omitempty"`
+	K       *int                   `json:"k,omitempty"`
 }
 
 func init() {
